@@ -183,6 +183,34 @@ def main(argv=None):
         else:
             new.append((sig, vs))
 
+    # ---- confirm new violations by replaying them in a fresh process ---------
+    # (same input/schedule must fail every time: a violation that does not reproduce is
+    # nondeterminism the machinery does not own -> the check is broken, not the code)
+    unconfirmed = []
+    confirmed = 0
+    if new and not os.environ.get("VERIF_NO_CONFIRM"):
+        mpctx = multiprocessing.get_context("spawn")
+        for sig, vs in new[:6]:
+            rp = vs[0].get("replay") or {}
+            if not rp.get("func"):
+                continue
+            envd = {"fw": "none", "nvx": "1", "seed": seed, "tier": args.tier}
+            envd.update({k: v for k, v in (rp.get("env") or {}).items() if v is not None})
+            if str(envd.get("nvx")) == "1":
+                envd["nvxdir"] = ensure_nvx()
+            try:
+                with ProcessPoolExecutor(1, mp_context=mpctx, initializer=_worker.init,
+                                         initargs=(envd,)) as ex:
+                    out = ex.submit(_worker.call, rp["func"], rp["arg"]).result()
+            except Exception as e:  # noqa
+                out = {"error": repr(e)}
+            if isinstance(out, dict) and "viol" in out and not out.get("error"):
+                if out["viol"]:
+                    confirmed += 1
+                else:
+                    unconfirmed.append(sig)
+    ctx.counters["violations_confirmed_by_replay"] = confirmed
+
     # ---- evidence ---------------------------------------------------------
     cov = collections.OrderedDict()
     cov["evaluations"] = int(ctx.counters.get("evaluations", 0))
@@ -232,6 +260,10 @@ def main(argv=None):
         rc = 1
     if broken:
         print("CHECK-BROKEN %s: machinery error (not a verdict)\n%s" % (pid, broken))
+        return 2
+    if unconfirmed:
+        print("CHECK-BROKEN %s: violation(s) did not reproduce when replayed in a fresh process "
+              "(nondeterminism not owned by the machinery): %s" % (pid, unconfirmed[:3]))
         return 2
     if vac:
         print("CHECK-BROKEN %s: vacuous exploration: %s" % (pid, "; ".join(vac)))
